@@ -193,6 +193,12 @@ pub fn corpus() -> Vec<(String, Vec<String>)> {
         ("exact-65536".into(), (0..8192).map(|i| ["abcdefg", "abcdefh", "abcdefi"][i % 3].to_string()).collect()),
         ("flag-like".into(), s(&["--digits", "-d", "--min-repetitions=2", "-", "--", "-f"])),
         ("hyphen-item".into(), s(&["a", "-", "b"])),
+        ("hyphen-first".into(), s(&["-", "a", "b"])),
+        ("hyphen-last".into(), s(&["a", "b", "-"])),
+        // results that end in white space when the end anchor is off
+        ("trailing-space".into(), s(&["a ", "b "])),
+        ("trailing-blanks".into(), s(&["x \t"])),
+        ("leading-space".into(), s(&[" a", " b"])),
         ("numbers".into(), s(&["007", "+1", "1e3", "0x1F", "3.14", "1_000", "٣٤", "४२"])),
         ("equals".into(), s(&["k=v", "a==b", "=", "x=1,y=2", "--opt=value"])),
         ("no-digits-lowercase".into(), s(&["alpha", "beta", "gamma", "alp"])),
